@@ -10,7 +10,7 @@
 (* Unsound variants (a hint one day / week / year too far) must be refuted: MC_Hints_nv.cfg.     *)
 EXTENDS Hints, TLC
 
-CONSTANTS Lo, Hi, Stride, MaxRules, Late,     \* Late = 1: non-vacuity, every hint is pushed one unit too far
+CONSTANTS Shortcut, Lo, Hi, Stride, MaxRules, Late,     \* Late = 1: non-vacuity, every hint is pushed one unit too far
           Wide                                 \* thorough tier: every day of Dec 20 .. Feb 10 and the end of the year as standing days
 VARIABLES n, rs
 vars == <<n, rs>>
@@ -98,7 +98,8 @@ DateSoundR21 == (n \in DateDays) =>
 AllNth == <<TRUE, TRUE, TRUE, TRUE, TRUE>>
 Fx(m) == [t |-> "fixed", m |-> m]
 Sp(s, e) == [s |-> Fx(s), e |-> Fx(e), open_end |-> FALSE, repeats |-> -1]
-Times == {<<Sp(0, 1440)>>, <<Sp(0, 720)>>, <<Sp(1080, 360)>>}
+\* whole day, inside the day, passing midnight written the three ways the grammar allows: end < start, end == start (24 hours), end > 24:00
+Times == {<<Sp(0, 1440)>>, <<Sp(0, 720)>>, <<Sp(1080, 360)>>, <<Sp(600, 600)>>, <<Sp(1200, 1560)>>}
 Y0 == 2024
 ECtx == [ph |-> {DaysFromCivil(Y0, 1, 1), DaysFromCivil(Y0, 1, 6)}, sh |-> {}, events |-> "default"]
 \* <<year, monthday, week, weekday>>
@@ -117,8 +118,20 @@ DaysNarrow == {DaysFromCivil(Y0 - 1, 12, 30), DaysFromCivil(Y0 - 1, 12, 31), Day
           DaysFromCivil(Y0, 1, 15), DaysFromCivil(Y0, 1, 31), DaysFromCivil(Y0, 2, 1), DaysFromCivil(Y0, 12, 31)}
 DaysP == IF Wide THEN (DaysFromCivil(Y0 - 1, 12, 20)..DaysFromCivil(Y0, 2, 10)) \cup (DaysFromCivil(Y0, 12, 20)..DaysFromCivil(Y0 + 1, 1, 3))
          ELSE DaysNarrow
+\* A tempting optimisation of the spill test (seeded change C02-7): ask about yesterday only for rules with a span that can pass
+\* midnight. Written with the evaluator's own wrap condition (end <= start, or end after 24:00: "le") it is sound; written
+\* "end < start" ("lt") the 24-hour span 10:00-10:00 is forgotten and TLC refutes the contract. "none" is the code.
+PassesMidnight(sp) == IF Shortcut = "lt" THEN sp.e.m < sp.s.m \/ sp.e.m > 1440 ELSE sp.e.m <= sp.s.m \/ sp.e.m > 1440
+RuleHintShort(rule, dd, ctx) ==
+  IF ImmutableFullDay(rule)
+     \/ ~(DayMatch(rule, dd, ctx) \/ ((\E i \in DOMAIN rule.time : PassesMidnight(rule.time[i])) /\ DayMatch(rule, dd - 1, ctx)))
+  THEN DaySelHint(rule, dd, ctx) ELSE dd + 1
+ExprHintShort(expr, dd, ctx) ==
+  IF dd < DateStart THEN DateStart
+  ELSE IF IsConstant(expr) THEN DateEnd
+  ELSE MinOfSeq([i \in DOMAIN expr.rules |-> RuleHintShort(expr.rules[i], dd, ctx)])
 ExprHintSound == \A d0 \in DaysP :
-                   LET h == ExprHint(Expr, d0, ECtx)
+                   LET h == IF Shortcut = "none" THEN ExprHint(Expr, d0, ECtx) ELSE ExprHintShort(Expr, d0, ECtx)
                    IN h = NONE \/ (h > d0 /\ \A d \in (d0 + 1)..(Min2(h + Late, d0 + 40) - 1) : SkippedOk(Expr, d0, d, ECtx))
 
 Init == n \in {Lo + k * Stride : k \in 0..((Hi - Lo) \div Stride)} /\ rs = <<>>
